@@ -272,13 +272,11 @@ Definition edit_i (t : itier) (o : Z) (mode : repmode) : res itier :=
   if (match mode with RError => true | _ => false end) && edit_i_reports t o
   then Err OutOfBounds else
   let l := filter_map (edit1 o) (ients t) in
-  match zmin_list (map istart l), zmax_list (map iend l) with
-  | Some a, Some b =>
-      new_itier (iname t) l
-        (Some (if imin t <? a then imin t else a))
-        (Some (if b <? imax t then imax t else b))
-  | _, _ => Err PyError
-  end.
+  let a := match zmin_list (map istart l) with
+           | Some a => if imin t <? a then imin t else a | None => imin t end in
+  let b := match zmax_list (map iend l) with
+           | Some b => if b <? imax t then imax t else b | None => imax t end in
+  new_itier (iname t) l (Some a) (Some b).
 
 Definition edit_p_reports (t : ptier) (o : Z) : bool :=
   existsb (fun p => (ptime p + o <? pmin t) || (pmax t <? ptime p + o)) (pents t).
@@ -287,13 +285,11 @@ Definition edit_p (t : ptier) (o : Z) (mode : repmode) : res ptier :=
   if (match mode with RError => true | _ => false end) && edit_p_reports t o
   then Err OutOfBounds else
   let l := filter_map (fun p => if ptime p + o <? 0 then None else Some (pshift o p)) (pents t) in
-  match zmin_list (map ptime l), zmax_list (map ptime l) with
-  | Some a, Some b =>
-      new_ptier (pname t) l
-        (Some (if pmin t <? a then pmin t else a))
-        (Some (if b <? pmax t then pmax t else b))
-  | _, _ => Err PyError
-  end.
+  let a := match zmin_list (map ptime l) with
+           | Some a => if pmin t <? a then pmin t else a | None => pmin t end in
+  let b := match zmax_list (map ptime l) with
+           | Some b => if b <? pmax t then pmax t else b | None => pmax t end in
+  new_ptier (pname t) l (Some a) (Some b).
 
 (* appendTier *)
 Definition append_i (A B : itier) : res itier :=
